@@ -820,7 +820,7 @@ func TestPropConcurrentWorkload(t *testing.T) {
 	rec.Assume("interleavings are sampled (one execution per generated workload), not enumerated; a schedule-dependent failure is reported with the recorded history and may not reproduce")
 	rec.Assume("the writer-deleter uses unique timestamps so that a delete applied file by file cannot legitimately expose an older version")
 	rec.Assume("a timestamp deleted by a delete that overlaps an in-progress cache snapshot may stay readable while known finding delete-during-snapshot-window is open (counted under excluded_known)")
-	rec.Check(t, 12, 100, func(t *rapid.T) {
+	rec.Check(t, 8, 80, func(t *rapid.T) {
 		w := workload{
 			Writers: rapid.IntRange(1, 3).Draw(t, "writers"), Readers: rapid.IntRange(1, 3).Draw(t, "readers"),
 			WriterOps: rapid.IntRange(30, 120).Draw(t, "writerOps"), Batch: rapid.IntRange(1, 12).Draw(t, "batch"),
@@ -1011,7 +1011,7 @@ func TestKnown_transient_stale_read(t *testing.T) {
 	what := ""
 	rapid.Check(t, func(rt *rapid.T) {
 		// rapid.T is only used as the failure sink of runWorkload; nothing is drawn
-		for attempt := 0; attempt < 3 && what == ""; attempt++ {
+		for attempt := 0; attempt < 2 && what == ""; attempt++ {
 			r := runWorkload(rt, mk(attempt))
 			if r.hung {
 				return
